@@ -82,6 +82,10 @@ def c01_jobs(tier):
                         jobs.append(job(ROOT, "HProtectRoundTrip", [s, role, hm, 0, k, 0]))
                     for i, k in enumerate(PAYLOAD_KINDS):
                         jobs.append(job(ROOT, "HProtectRoundTrip", [s, role, hm, 0, k, PAYLOAD_KINDS[(i + 3) % 15], 0]))
+    # the upper end of the domain: one payload of up to 65535 octets (plain path; protected at 40000)
+    for i, total in enumerate((32767, 32768, 40000, 65535, 65536, 70000)):
+        jobs.append(job(ROOT, "HBigPayload", [-1, i % 2, i % 2, total], wall_ms=600000))
+    jobs.append(job(ROOT, "HBigPayload", [4, 1, 0, 40000], wall_ms=600000))
     for hm in (0, 1):
         jobs.append(job(ROOT, "HNoKeyRoundTrip", [hm, 0, 0]))
         for k in PAYLOAD_KINDS:
